@@ -114,8 +114,10 @@ Lemma ren_kidx_lt keep n a : a < length (kidx keep n) -> ren (kidx keep n) a < n
 Proof. intro H. assert (In (ren (kidx keep n) a) (kidx keep n)) by (apply nth_In; exact H). apply kidx_In in H0. lia. Qed.
 Lemma ren_kidx_keep keep n a : a < length (kidx keep n) -> keep (ren (kidx keep n) a) = true.
 Proof. intro H. assert (In (ren (kidx keep n) a) (kidx keep n)) by (apply nth_In; exact H). apply kidx_In in H0. tauto. Qed.
+Lemma filter_len_le {A} (P : A -> bool) l : length (filter P l) <= length l.
+Proof. induction l as [|x r IH]; [apply le_n|]. cbn [filter]. destruct (P x); cbn [length]; lia. Qed.
 Lemma kidx_length_le keep n : length (kidx keep n) <= n.
-Proof. unfold kidx. rewrite <- (seq_length n 0) at 2. apply filter_length_le. Qed.
+Proof. unfold kidx. rewrite <- (seq_length n 0) at 2. apply filter_len_le. Qed.
 
 Lemma nth_lsub {A} (d : A) K l a : a < length K -> nth a (lsub d K l) d = nth (ren K a) l d.
 Proof.
@@ -130,21 +132,17 @@ Proof. apply map_length. Qed.
 Lemma filter_as_lsub {A} (d : A) (P : A -> bool) l :
   filter P l = lsub d (kidx (fun i => P (nth i l d)) (length l)) l.
 Proof.
-  unfold lsub, kidx.
-  assert (G : forall s, filter P l = map (fun i => nth (i - s) l d) (filter (fun i => P (nth (i - s) l d)) (seq s (length l)))).
-  { induction l as [|x r IH]; intro s; [reflexivity|].
-    cbn [length seq filter]. rewrite Nat.sub_diag. cbn [nth]. rewrite (IH (S s)).
-    assert (E : filter (fun i => P (nth (i - s) (x :: r) d)) (seq (S s) (length r)) =
-                filter (fun i => P (nth (i - S s) r d)) (seq (S s) (length r))).
-    { apply filter_ext_in. intros i Hi. apply in_seq in Hi. replace (i - s) with (S (i - S s)) by lia. reflexivity. }
-    rewrite E.
-    assert (E2 : map (fun i => nth (i - s) (x :: r) d) (filter (fun i => P (nth (i - S s) r d)) (seq (S s) (length r))) =
-                 map (fun i => nth (i - S s) r d) (filter (fun i => P (nth (i - S s) r d)) (seq (S s) (length r)))).
-    { apply map_ext_in. intros i Hi. apply filter_In in Hi. destruct Hi as [Hi _]. apply in_seq in Hi.
-      replace (i - s) with (S (i - S s)) by lia. reflexivity. }
-    destruct (P x); cbn [map]; rewrite ?Nat.sub_diag; cbn [nth]; rewrite E2; reflexivity. }
-  rewrite (G 0). f_equal.
-  - apply map_ext. intro i. rewrite Nat.sub_0_r. reflexivity.
+  unfold lsub, kidx. induction l as [|x r IH] using rev_ind; [reflexivity|].
+  rewrite app_length. cbn [length]. rewrite Nat.add_1_r. rewrite seq_S. cbn [Nat.add].
+  rewrite !filter_app, map_app. f_equal.
+  - rewrite IH at 1.
+    assert (E : filter (fun i => P (nth i (r ++ [x]) d)) (seq 0 (length r)) =
+                filter (fun i => P (nth i r d)) (seq 0 (length r))).
+    { apply filter_ext_in. intros i Hi. apply in_seq in Hi. rewrite app_nth1 by lia. reflexivity. }
+    rewrite E. apply map_ext_in. intros i Hi. apply filter_In in Hi. destruct Hi as [Hi _]. apply in_seq in Hi.
+    rewrite app_nth1 by lia. reflexivity.
+  - cbn [filter]. rewrite app_nth2 by lia. rewrite Nat.sub_diag. cbn [nth].
+    destruct (P x); [|reflexivity]. cbn [map]. rewrite app_nth2 by lia. rewrite Nat.sub_diag. reflexivity.
 Qed.
 
 (* a fold that ignores the elements failing P only sees the reduced list *)
